@@ -17,8 +17,8 @@ import ast
 import os
 import textwrap
 
-REPO = "/repo"
-THEORIES = "/verif/coq/theories"
+REPO = os.environ.get("VERIF_REPO", "/repo")
+THEORIES = os.path.join(os.environ.get("VERIF_HOME", "/verif"), "coq/theories")
 
 
 class Unsupported(Exception):
